@@ -43,10 +43,10 @@ def km_expr(km):
   return "(" + " @@ ".join('"%s" :> %s' % (k, S(v)) for k, v in km.items()) + ")"
 
 
-def cfg(max_ops, kinds, modes_w, modes_a, io, share="tensor", max_sub=1, max_ins=1, fixes=None, km=None):
+def cfg(max_ops, kinds, modes_w, modes_a, io, share="tensor", max_sub=1, max_ins=1, fixes=None, km=None, dup="no", layout="alloc"):
   km = km or km_generic(kinds, modes_w, modes_a)
   return dict(MaxOps=str(max_ops), MaxSub=str(max_sub), MaxIns=str(max_ins), Kinds=K(kinds), KM=km_expr(km),
-              IOModes=S(io), Share='"%s"' % share, Fixes=K(FIXES_NOW if fixes is None else fixes))
+              IOModes=S(io), Share='"%s"' % share, Dup='"%s"' % dup, Layout='"%s"' % layout, Fixes=K(FIXES_NOW if fixes is None else fixes))
 
 
 def quick_configs():
@@ -56,6 +56,12 @@ def quick_configs():
       # two-operator graphs over the kinds whose interaction drives the transformations
       "q2_core_2op": cfg(2, ["FC", "EW2", "CONCAT", "FIXT", "SAMEIN0"], [NOQ, M("SRQ", "a8a", "w8c"), M("WO", "-", "w8c")],
                          MODES_A_3, IO_2, share="tensor"),
+      # a tensor listed twice among the subgraph outputs (return y, y)
+      "q3_dupout_2op": cfg(2, ["FC", "EW1", "FIXT"], [NOQ, M("SRQ", "a8a", "w8c"), M("WO", "-", "w8c")],
+                           [NOQ, M("SRQ", "a8a", "w8c")], IO_2, share="none", dup="only"),
+      # tensor table with all activations before all constants (legal, unusual)
+      "q4_actsfirst_2op": cfg(2, ["FC", "EW2", "FIXT"], [NOQ, M("SRQ", "a8a", "w8c"), M("WO", "-", "w8c"), M("F16")],
+                              [NOQ, M("SRQ", "a8a", "w8c")], IO_2, share="tensor", layout="actsfirst"),
   }
 
 
